@@ -108,6 +108,9 @@ func Families(quick bool) []*Schema {
 	f7.Root(&Type{Name: "ListL", Kind: TList, ValType: "ListI"})
 	f7.Root(&Type{Name: "MapL", Kind: TMap, KeyType: "String", ValType: "ListI"})
 	f7.Root(&Type{Name: "MapM", Kind: TMap, KeyType: "String", ValType: "MapSI", ValNullable: true})
+	// containers two levels deep over a struct whose representation differs visibly from its type-level form
+	f7.Root(&Type{Name: "ListLPt", Kind: TList, ValType: "ListPt"})
+	f7.Root(&Type{Name: "MapLPt", Kind: TMap, KeyType: "String", ValType: "ListPt"})
 	// maps whose keys are a struct with a string representation
 	f7.Add(structT("KSJ", "stringjoin", fld("a", "String", false, false), fld("b", "String", false, false)))
 	f7.Root(&Type{Name: "MapKI", Kind: TMap, KeyType: "KSJ", ValType: "Int"})
